@@ -30,6 +30,12 @@ def conditions(tier, seed):
         Cond('kind', 'c10_names.py', {}, func='check_kind', timeout=t,
              bound='class-name spelling in new/find_metaclass/select_*/find_class/define_class/attribute_type: 4x4 spellings',
              case_split=['a', 'b', 'which']),
+        Cond('two_models', 'c10_names.py', {}, func='check_two_models', timeout=t,
+             bound='two metamodels declaring class Kq with the attribute spelled Val / vAL: write and read on one (4 x 4 spellings), then write, reads, where_eq and stored names on the other; both orders',
+             symbolic=['va', 'vb'], case_split=['sa', 'sb', 'sc', 'first']),
+        Cond('late_class', 'c10_names.py', {}, func='check_late_class', timeout=t,
+             bound='class looked up (find_class / find_metaclass / new / select_any) under one of 4 spellings before it is defined under one of 4 spellings; afterwards found, created and selected under every spelling',
+             case_split=['a', 'b', 'which']),
         Cond('loaded', 'c10_names.py', {}, func='check_loaded', timeout=t,
              bound='loaded model, identifier that is also referential: re-relate / rewrite the referred id / unrelate, then read, query and serialize under all spellings',
              case_split=['op', 's1', 's2', 'v'], realised=['model text']),
